@@ -601,6 +601,11 @@ def abandonpull(rng):
     g.emit("adv %d" % (dl * 1000000 - gap + rng.choice([150000, 300000, 900000])))
     g.emit("pull %s 1000 1" % hx(s))
     g.emit("stats " + hx(s))
+    if rng.chance(1, 2):
+        # the client acknowledges what it has just been given (and only that): those messages are never
+        # delivered again, whatever the abandoned request left behind
+        g.emit("acklast " + hx(s))
+        g.emit("stats " + hx(s))
     g.emit("adv %d" % (gap + 200000))
     g.emit("pull %s 1000 1" % hx(s))
     g.epilogue()
@@ -662,6 +667,7 @@ def bigpub(rng):
         g.emit("yield %d" % rng.range(0, 6))
         g.emit("pub %s %s" % (hx(t), jl(_payload(rng, "s%d" % i) for _ in range(rng.choice([1, 1, 2])))))
     g.emit("go")
+    g.emit("# drain")
     for _ in range(n_big // 1000 + 2):
         g.emit("pull %s 1000 1" % hx(s))
     g.emit("stats " + hx(s))
